@@ -43,6 +43,12 @@ type Sched struct {
 	Overrun  bool
 	active   bool
 	wg       sync.WaitGroup
+	// preemption inside library code: after `countdown` more preemption points the running task yields
+	PreemptMean int // 0 = never preempt at points
+	countdown   int
+	pre         uint64 // state of the gap generator (its own: the tasks call Preempt, the pick stream belongs to the scheduler loop)
+	Preemptions int
+	Points      int64
 }
 
 func New(rng *sim.Rand) *Sched { return &Sched{rng: rng, cur: -1, MaxSteps: 200000} }
@@ -83,6 +89,34 @@ func (s *Sched) Yield() {
 	if s == nil || !s.active || s.cur < 0 {
 		return
 	}
+	t := s.tasks[s.cur]
+	futexPost(&s.mainWord)
+	futexWait(&t.word)
+}
+
+// Preempt is called at every preemption point of the instrumented library. The gaps between two yields are
+// drawn from the scheduler's PRNG (uniform on 1..2*PreemptMean), so the schedule is a function of the seed.
+//
+//go:norace
+func (s *Sched) Preempt() {
+	if s == nil || !s.active || s.cur < 0 || s.PreemptMean <= 0 {
+		return
+	}
+	s.Points++
+	if s.countdown <= 0 {
+		// splitmix64 step, inline: nothing here may be visible to the race detector
+		s.pre += 0x9E3779B97F4A7C15
+		z := s.pre
+		z = (z ^ (z >> 30)) * 0xBF58476D1CE4E5B9
+		z = (z ^ (z >> 27)) * 0x94D049BB133111EB
+		z ^= z >> 31
+		s.countdown = 1 + int(z%uint64(2*s.PreemptMean))
+	}
+	s.countdown--
+	if s.countdown > 0 {
+		return
+	}
+	s.Preemptions++
 	t := s.tasks[s.cur]
 	futexPost(&s.mainWord)
 	futexWait(&t.word)
@@ -186,6 +220,7 @@ func (s *Sched) Run(fns []func()) {
 	for i := range fns {
 		s.tasks[i] = &task{}
 	}
+	s.pre = s.rng.Uint64()
 	s.setActive(true)
 	for i, fn := range fns {
 		i, fn := i, fn
